@@ -166,8 +166,8 @@ static void Tree_Set(var self, var key, var val);
 
 static void Tree_New(var self, var args) {
   struct Tree* m = self;
-  m->ktype = get(args, $I(0));
-  m->vtype = get(args, $I(1));
+  m->ktype = cast(get(args, $I(0)), Type);
+  m->vtype = cast(get(args, $I(1)), Type);
   m->ksize = size(m->ktype);
   m->vsize = size(m->vtype);
   m->nitems = 0;
